@@ -4,6 +4,7 @@ package main
 // library (anacrolix/torrent/bencode) and compared with the model's value.
 
 import (
+	"context"
 	"encoding/binary"
 	"errors"
 	"fmt"
@@ -15,6 +16,7 @@ import (
 	"strconv"
 	"strings"
 	"sync"
+	"sync/atomic"
 	"time"
 
 	abencode "github.com/anacrolix/torrent/bencode"
@@ -218,6 +220,54 @@ func httpwError(c *Ctx, client bool, msg string) {
 	c.Emit(op, obs)
 }
 
+// httpw.turned_away: a request that reaches the handler of an HTTP frontend whose Stop has begun (D36) is not handed
+// to the logic — and what the client gets is still a bencoded dictionary with the one generic failure reason.
+type countingLogic struct{ calls int32 }
+
+func (l *countingLogic) HandleAnnounce(ctx context.Context, _ *bittorrent.AnnounceRequest) (context.Context, *bittorrent.AnnounceResponse, error) {
+	atomic.AddInt32(&l.calls, 1)
+	return ctx, &bittorrent.AnnounceResponse{}, nil
+}
+func (l *countingLogic) AfterAnnounce(context.Context, *bittorrent.AnnounceRequest, *bittorrent.AnnounceResponse) {
+	atomic.AddInt32(&l.calls, 1)
+}
+func (l *countingLogic) HandleScrape(ctx context.Context, _ *bittorrent.ScrapeRequest) (context.Context, *bittorrent.ScrapeResponse, error) {
+	atomic.AddInt32(&l.calls, 1)
+	return ctx, &bittorrent.ScrapeResponse{}, nil
+}
+func (l *countingLogic) AfterScrape(context.Context, *bittorrent.ScrapeRequest, *bittorrent.ScrapeResponse) {
+	atomic.AddInt32(&l.calls, 1)
+}
+
+func httpwTurnedAway(c *Ctx, route string) {
+	op := "httpw.turned_away route=" + route
+	obs := func() (o string) {
+		defer func() {
+			if p := recover(); p != nil {
+				o = "PANIC"
+			}
+		}()
+		lg := &countingLogic{}
+		h := httpfe.VerifStoppingHandler(lg, httpfe.Config{AnnounceRoutes: []string{"/announce"}, ScrapeRoutes: []string{"/scrape"}})
+		uri := "/announce?info_hash=01234567890123456789&peer_id=ABCDEFGHIJKLMNOPQRST&port=6881&left=1&downloaded=0&uploaded=0&compact=1"
+		if route == "scrape" {
+			uri = "/scrape?info_hash=01234567890123456789"
+		}
+		req := httptest.NewRequest("GET", uri, nil)
+		req.RemoteAddr = "10.1.2.3:4444"
+		w := httptest.NewRecorder()
+		h.ServeHTTP(w, req)
+		time.Sleep(20 * time.Millisecond)
+		d := clientDecode(w.Body.Bytes())
+		body := "GENERIC"
+		if !strings.HasPrefix(d, "d{"+hx([]byte("failure reason"))+":s") || strings.Contains(d, ",") {
+			body = "NOT-A-SINGLE-FAILURE-REASON " + d
+		}
+		return fmt.Sprintf("body=%s logic_calls=%d", body, atomic.LoadInt32(&lg.calls))
+	}()
+	c.Emit(op, obs)
+}
+
 func replayC08(c *Ctx, op string, a map[string]string) {
 	i64 := func(k string) int64 { v, _ := strconv.ParseInt(a[k], 10, 64); return v }
 	peers := func(k string) []wPeer {
@@ -251,6 +301,8 @@ func replayC08(c *Ctx, op string, a map[string]string) {
 			}
 		}
 		httpwScrape(c, ihs, cs, is)
+	case "httpw.turned_away":
+		httpwTurnedAway(c, a["route"])
 	case "httpw.error":
 		httpwError(c, a["cls"] == "client", string(unhx(a["msg"])))
 	}
@@ -261,6 +313,8 @@ func runC08(c *Ctx) {
 		op, a := parseOp(l)
 		replayC08(c, op, a)
 	}
+	httpwTurnedAway(c, "announce")
+	httpwTurnedAway(c, "scrape")
 	r := c.R
 	genPeers := func(n, iplen int) []wPeer {
 		var out []wPeer
